@@ -106,13 +106,18 @@ Section Rename.
     change (@nil (str * cell)) with (ren_row []) at 1. apply spec_bind_ren.
   Qed.
 
+  Lemma row_bounds_ren : forall c mu t, row_bounds_ok (ren_clause c) (ren_row mu) t = row_bounds_ok c mu t.
+  Proof.
+    intros. unfold row_bounds_ok, row_bound. cbn [cPLoA cPUpA ren_clause]. rewrite !f_empty, !get_ren. reflexivity.
+  Qed.
+
   Lemma spec_extend_ren : forall c glo gs mu,
     spec_extend (ren_clause c) glo gs (ren_row mu) = map ren_row (spec_extend c glo gs mu).
   Proof.
     intros. unfold spec_extend. rewrite !flat_map_concat_map, concat_map, map_map. f_equal. apply map_ext. intros g.
     rewrite !flat_map_concat_map, concat_map, map_map. f_equal. apply map_ext. intros t.
     rewrite spec_row_ren. destruct (spec_row c glo t) as [r|]; cbn; [|reflexivity].
-    rewrite compat_ren. destruct (compat_equiv mu r); cbn; [rewrite merge_ren|]; reflexivity.
+    rewrite compat_ren, row_bounds_ren. destruct (row_bounds_ok c mu t && compat_equiv mu r); cbn; [rewrite merge_ren|]; reflexivity.
   Qed.
 
   Lemma mem_ren : forall k l, mem (f k) (map f l) = mem k l.
